@@ -13,6 +13,7 @@ package main
 // Whole-struct copies of the object made outside the owners are NOT covered (named assumption).
 
 import (
+	"go/token"
 	"go/types"
 	"strings"
 
@@ -136,6 +137,11 @@ func (e *Engine) encapObligations(prop string) []*Obligation {
 				continue // verified against its own contract
 			}
 			if fn.Name() == "init" || strings.HasPrefix(fn.Name(), "init#") {
+				continue
+			}
+			// only functions that code outside the owner packages can call matter: an unexported
+			// function is reachable only through exported ones, whose mod-sets include its writes
+			if !token.IsExported(fn.Name()) || fn.Parent() != nil {
 				continue
 			}
 			m := e.modOf(fn)
